@@ -14,7 +14,7 @@ import (
 func exhaustiveAlphabet(maxLen int) []op {
 	var al []op
 	for a := 0; a < 2; a++ {
-		al = append(al, op{k: opCreate, a: a})
+		al = append(al, op{k: opCreate, a: a, s: 0, v: 1}, op{k: opCreate, a: a, s: 1, v: 0}, op{k: opCreate, a: a, s: 1, v: 1})
 	}
 	for a := 0; a < 2; a++ {
 		al = append(al, op{k: opAddBal, a: a, v: 1}, op{k: opAddBal, a: a, v: 0})
@@ -66,27 +66,35 @@ func hasPrecond(k opKind) bool { return k == opSubBal || k == opSubRefund || k =
 // TestC12A_Exhaustive enumerates, for each of the three pre-states, ALL op sequences of length
 // <= L over the alphabet that respect the caller contract and contain at least one
 // RevertToSnapshot (a sequence without a revert evaluates no oracle), and checks both oracles on
-// each of them. The space is partitioned over the shards by the first two ops.
+// each of them. The space is partitioned over the shards by the first three ops.
 func TestC12A_Exhaustive(t *testing.T) {
 	env := c12aGetEnv(t)
-	L := stats.Scale(5, 6)
-	if v, err := strconv.Atoi(os.Getenv("C12A_MAXLEN")); err == nil && v >= 2 {
-		L = v
+	// maximal length per pre-state (empty, rich, pending). Cost grows ~55x per extra op: the
+	// thorough tier affords length 6 only from the "rich" pre-state.
+	lens := [3]int{5, 5, 5}
+	if stats.Thorough() {
+		lens = [3]int{5, 6, 5}
 	}
-	alpha := exhaustiveAlphabet(L)
-	N := len(alpha)
+	if v, err := strconv.Atoi(os.Getenv("C12A_MAXLEN")); err == nil && v >= 2 {
+		lens = [3]int{v, v, v}
+	}
 	shard, nsh := stats.Shard(), stats.NShards()
 	exclude := stats.IsKnown(fpSuicideSize)
 	const part = "exhaustive"
 	var executed, invalid int64
+	memo := map[string]*commitD{}
 
+	var N int
 	for ii := range c12aInits {
 		ini := &c12aInits[ii]
+		L := lens[ii]
+		alpha := exhaustiveAlphabet(L)
+		N = len(alpha)
 		seq := make([]op, 0, L)
 		idx := make([]int, 0, L)
 
 		prefixValid := func() bool {
-			r, err := newRunner(env, ini, 2, obsNone)
+			r, err := newRunner(env, ini, 2, false)
 			if err != nil {
 				t.Fatalf("HARNESS: %v", err)
 			}
@@ -102,8 +110,9 @@ func TestC12A_Exhaustive(t *testing.T) {
 		}
 		execOne := func() bool {
 			spans, shadow := analyse(seq)
-			mode := obsFull
-			res := runCase(env, ini, 2, mode, exclude, seq, spans, shadow)
+			// the revert oracle of every earlier revert was evaluated when that prefix was enumerated
+			observe := seq[len(seq)-1].k == opRevert
+			res := runCase(env, ini, 2, exclude, seq, spans, shadow, false, memo, observe)
 			if res.invalidAt >= 0 {
 				if res.invalidAt != len(seq)-1 {
 					t.Fatalf("HARNESS: precondition failed inside an already validated prefix: %v @%d", opsStrings(seq), res.invalidAt)
@@ -116,7 +125,7 @@ func TestC12A_Exhaustive(t *testing.T) {
 				return false
 			}
 			executed++
-			sig, nt, labels := labelsFor(ini, mode, seq, spans)
+			sig, nt, labels := labelsFor(ini, seq, spans)
 			if res.effective {
 				labels = append(labels, "revert_undid_observable_change")
 			}
@@ -126,40 +135,47 @@ func TestC12A_Exhaustive(t *testing.T) {
 				stats.Sample(part, map[string]any{"init": ini.name, "ops": opsStrings(seq)})
 			}
 			if res.viol != nil {
-				reportViolation(t, part, ini, mode, seq, shadow, res.viol)
+				reportViolation(t, part, ini, seq, shadow, res.viol)
 			}
 			return true
 		}
 
-		var rec func(live int, hasRev bool)
-		rec = func(live int, hasRev bool) {
+		var rec func(live int, rooted, hasRev bool)
+		rec = func(live int, rooted, hasRev bool) {
 			for i, o := range alpha {
-				if !structOK(o, live, L) {
+				if !structOK(o, live, rooted, L) {
 					continue
 				}
 				seq, idx = append(seq, o), append(idx, i)
 				n := len(seq)
 				nl, hr, rem := nextLive(o, live), hasRev || o.k == opRevert, L-n
 				descend := true
+				// work is dealt out by a hash of the first three ops; shorter sequences are executed
+				// by the shard their own hash names, but every shard walks through them
+				h := 0
+				for _, x := range idx[:min(n, 3)] {
+					h = h*131 + x + 1
+				}
+				mine := h%nsh == shard
 				switch {
-				case n == 2 && (idx[0]*N+idx[1])%nsh != shard:
+				case n == 3 && !mine:
 					descend = false
 				case !(hr || (nl > 0 && rem >= 1) || rem >= 2):
 					descend = false // no revert reachable any more
-				case hr:
+				case hr && (mine || n > 3):
 					descend = execOne()
-				case hasPrecond(o.k):
+				case hr || hasPrecond(o.k):
 					descend = prefixValid()
 				}
 				if descend && rem > 0 {
-					rec(nl, hr)
+					rec(nl, nextRooted(o, rooted), hr)
 				}
 				seq, idx = seq[:n-1], idx[:n-1]
 			}
 		}
-		rec(0, false)
+		rec(0, false, false)
 	}
 	stats.Exhaustive(part)
-	stats.Note(fmt.Sprintf("C12A exhaustive: alphabet=%d ops, max length=%d, %d pre-states; all contract-respecting sequences containing a revert", N, L, len(c12aInits)))
-	t.Logf("shard %d/%d: executed %d sequences (max length %d, alphabet %d), %d pruned by precondition", shard, nsh, executed, L, N, invalid)
+	stats.Note(fmt.Sprintf("C12A exhaustive: alphabet=%d ops, max length per pre-state (empty,rich,pending)=%v; all contract-respecting sequences containing a revert", N, lens))
+	t.Logf("shard %d/%d: executed %d sequences (max lengths %v, alphabet %d), %d pruned by precondition", shard, nsh, executed, lens, N, invalid)
 }
